@@ -514,15 +514,36 @@ impl Model {
             (RK::MapWithOld { .. }, Some(o)) => o != new,
             // depend_on installs a cutoff comparing the two nodes' change stamps (until replaced)
             (RK::DependOn { a, .. }, Some(_)) if !self.nodes[h].cutoff_set => self.nodes[*a].last_changed != self.nodes[h].last_changed,
-            (RK::MapRef { src, .. }, Some(o)) => {
+            (RK::MapRef { src, proj }, Some(o)) => {
                 let s = &self.nodes[*src];
-                // exact only when the input changed in this round while this node was linked
-                let exact = s.last_run == Some(round) && s.prev_value.is_some() && self.cone_start.contains(&h) && !matches!(s.rk, RK::MapWithOld { .. });
-                let c = !self.nodes[h].cutoff.cuts(o, new);
-                if !exact && !c {
-                    maybe = true;
+                let pr = |v: Option<MV>| match v {
+                    Some(MV::P(a, b)) => Some(MV::I(if *proj == 0 { a } else { b })),
+                    _ => None,
+                };
+                if s.last_run == Some(round) && s.last_changed == Some(round) && s.prev_value.is_some() {
+                    // the input was recomputed and changed in this round: if this node was already linked, the
+                    // engine compared the old and new projection of the input exactly
+                    let exact = match (pr(s.prev_value), pr(s.value)) {
+                        (Some(a), Some(b)) => !self.nodes[h].cutoff.cuts(a, b),
+                        _ => true,
+                    };
+                    if self.cone_start.contains(&h) {
+                        exact
+                    } else {
+                        // linked at some point during this round: either verdict is possible
+                        maybe = true;
+                        false
+                    }
+                } else {
+                    // reconnected without fresh information: the engine may report a change
+                    // although the projection is equal (relaxation R2); a real difference must
+                    // be reported
+                    let c = !self.nodes[h].cutoff.cuts(o, new);
+                    if !c {
+                        maybe = true;
+                    }
+                    c
                 }
-                c
             }
             (_, Some(o)) => !self.nodes[h].cutoff.cuts(o, new),
         };
